@@ -1,5 +1,5 @@
 #!/usr/bin/env python3
-"""tools/seedrecheck.py <seeded name> [more...] — re-run ONLY the property's quick check against a scratch
+"""tools/seedrecheck.py <seeded name>[@Cnn] [more...] — re-run ONLY the property's quick check against a scratch
 worktree with the (already confirmed) seeded patch applied, and update seeded/<name>/meta.json
 (after a check was strengthened). The confirmation steps (suite, demo) are not repeated."""
 import hashlib, json, os, re, shutil, subprocess, sys, time
@@ -13,9 +13,11 @@ def sh(cmd, cwd=None, timeout=7200, env=None):
 
 
 for name in sys.argv[1:]:
+    # name@Cnn: run the check of ANOTHER property against the change (recorded under verification.other_checks)
+    name, _, other = name.partition("@")
     d = os.path.join(V, "seeded", name)
     meta = json.load(open(os.path.join(d, "meta.json")))
-    pid = meta["property"]
+    pid = other or meta["property"]
     wt = "/tmp/sr-" + name
     sh("git -C /repo worktree remove --force %s" % wt); shutil.rmtree(wt, ignore_errors=True)
     rc, o = sh("git -C /repo worktree add --detach %s HEAD" % wt); assert rc == 0, o
@@ -28,13 +30,17 @@ for name in sys.argv[1:]:
         res.update({"check_rc": rc, "check_wall_s": round(time.time() - t), "check_lines": lines})
         caught = rc == 1 and any(l.startswith("VIOLATION") for l in lines)
         res["caught_by_quick"] = caught
-        meta.setdefault("verification", {})["caught_by_quick_after_strengthening"] = caught
+        if not other:
+            meta.setdefault("verification", {})["caught_by_quick_after_strengthening"] = caught
         for l in lines:
             m = re.search(r"replay=(\S+)", l)
             if m and os.path.exists(m.group(1)):
                 os.makedirs(os.path.join(d, "replays"), exist_ok=True)
                 shutil.copy(m.group(1), os.path.join(d, "replays"))
-    meta.setdefault("verification", {})["recheck"] = res
+    if other:
+        meta.setdefault("verification", {}).setdefault("other_checks", {})[other] = res
+    else:
+        meta.setdefault("verification", {})["recheck"] = res
     json.dump(meta, open(os.path.join(d, "meta.json"), "w"), indent=1)
     sh("git -C /repo worktree remove --force %s" % wt); shutil.rmtree(wt, ignore_errors=True)
     tag = hashlib.sha1(os.path.realpath(wt).encode()).hexdigest()[:8]
